@@ -49,12 +49,12 @@ Inductive bev :=
 | BClose
 | BExit                              (* an idle worker sees done and returns *)
 | BSenderExit                        (* a pending signal sender sees done and returns *)
-| BProbe                             (* look at the queue length and the number of running fetches *)
+| BProbe                             (* look at the ids of the waiting messages and of the running fetches *)
 | BCacheSize.                        (* look at the number of cache entries *)
 
 Inductive bout :=
 | OObs (r : obs_res)
-| OProbe (queued fetching : N)
+| OProbe (queued fetching : list N)   (* message ids, ascending *)
 | OCache (n : N)
 | OTake (taken fifo : bool)          (* taken: the message was waiting and a worker could take it; fifo: nothing queued by an earlier Observe call was overtaken *)
 | ONone.
@@ -153,7 +153,7 @@ Section Bg.
         if closed st && N.ltb 0 (signals st) then
           (mkB (queue st) (ids st) (cache st) (idle st) (inflight st) (stopped st) (signals st - 1) true (epoch st), ONone)
         else (st, ONone)
-    | BProbe => (st, OProbe (N.of_nat (length (queue st))) (N.of_nat (length (inflight st))))
+    | BProbe => (st, OProbe (sortN (map (fun p => m_id (fst p)) (queue st))) (sortN (inflight st)))
     | BCacheSize => (st, OCache (N.of_nat (length (cache st))))
     end.
 
